@@ -7,6 +7,9 @@
             missing / oob: () = NaN, k = k/8
    result = (r ..) one per query: (0 (cell ..)) | (1 code) | (2) panic
    cell   = () NaN | (num den) the exact number num/den | (1 0) +inf | (-1 0) -inf.
+   Oracle: kinds 0 / 1 per base exact, integral bin width exact, other widths range / NaN-freedom; kinds 2 / 3
+   (zoom) `missing` iff no record overlaps the bin, else a number within the overlapping records' [min, max],
+   `oob` for bins leaving the chromosome.
    The implementation side prints f64 bit patterns; tools/vlib/props/C20.py rewrites each into the
    exact fraction it denotes before the oracle sees it. *)
 From BT Require Import Base.Util Base.Sexp Model.PyArrays.
@@ -74,6 +77,16 @@ Definition cell_within (c : sexp) (lo hi : Z) : bool :=
 Definition fold_min (l : list Z) : Z := match l with [] => 0 | x :: r => fold_left Z.min r x end.
 Definition fold_max (l : list Z) : Z := match l with [] => 0 | x :: r => fold_left Z.max r x end.
 
+(* a well-formed zoom level: records non-empty, in order, disjoint, inside [lo, len); at least one covered
+   base; min <= sum / bases_covered <= max *)
+Fixpoint zoom_saneb (lo len : Z) (recs : list zrec) : bool :=
+  match recs with
+  | [] => true
+  | z :: r => (lo <=? z_start z) && (z_start z <? z_end z) && (z_end z <=? len) && (0 <? z_bases z)
+              && (z_min z * z_bases z <=? z_sum z) && (z_sum z <=? z_max z * z_bases z)
+              && zoom_saneb (z_end z) len r
+  end.
+
 Definition query_ok (kind len : Z) (items q r : sexp) : bool :=
   let s := getZ (nthS 0 q) in let e := getZ (nthS 1 q) in
   let bins := getZ (nthS 2 q) in let st := get_stat (nthS 3 q) in
@@ -105,7 +118,30 @@ Definition query_ok (kind len : Z) (items q r : sexp) : bool :=
         forallb (fun c => cell_is false c (out_of_fl oob) || cell_is false c (out_of_fl missing)
                           || (negb (Nat.eqb (length all) 0) && cell_within c (fold_min all) (fold_max all)))
                 cells
-  | _ => true      (* zoom routes (exact = False) are outside the property: shape and no panic only *)
+  | _ =>
+      (* zoom routes (exact = False): a bin no record overlaps reads `missing`; a bin with data reads a number
+         within the range [smallest min_val, largest max_val] of the records overlapping it -- for min at most
+         the smallest max_val, for max at least the largest min_val: the values the true statistic of the bin
+         can have given the level (whatever the interpolation: in particular it does not depend on `missing`
+         and is never NaN); a bin that sticks out
+         of the chromosome may be `oob` or that value for its part inside.  Only for a well-formed level
+         (records ordered, disjoint, inside the chromosome, min <= mean <= max; for the bigBed routine
+         non-negative statistics, as depths are) and 1..e-s bins. *)
+      let recs := getList get_zrec items in
+      if negb (zoom_saneb 0 len recs && (0 <? bins) && (bins <=? e - s)
+               && ((kind =? 2) || forallb (fun z => 0 <=? z_min z) recs)) then true else
+      forallb (fun ic => let lo := s + bin_edge (fst ic) (e - s) bins in
+                         let hi := s + bin_edge (fst ic + 1) (e - s) bins in
+                         let ov := filter (fun z => 0 <? zov (Z.max lo 0) (Z.min hi len) z) recs in
+                         let inner := match ov with
+                                      | [] => cell_is false (snd ic) (out_of_fl missing)
+                                      | _ => cell_within (snd ic)
+                                               (match st with Max => fold_max (map z_min ov) | _ => fold_min (map z_min ov) end)
+                                               (match st with Min => fold_min (map z_max ov) | _ => fold_max (map z_max ov) end)
+                                      end in
+                         if (0 <=? lo) && (hi <=? len) then inner
+                         else cell_is false (snd ic) (out_of_fl oob) || inner)
+              (combine (seqZ 0 (length cells)) cells)
   end.
 
 Definition c20_oracle (c out : sexp) : sexp :=
